@@ -52,6 +52,16 @@ def drive(rec):
             if np.iinfo(ty).min <= n <= np.iinfo(ty).max:
                 t["routes"].append(route(lambda: Element[ty(n)]))
                 t["routes"].append(route(lambda: Element.from_atomic_number(ty(n))))
+        t["batch0"] = []
+        if n % 50 == 0:
+            for name in ("cov_radii", "vdw_radii", "element_names", "element_symbols"):
+                for arr in (np.array([], dtype=int), np.array([6, n])[:0]):
+                    b0 = {"fn": name, "exc": "", "len": -1}
+                    try:
+                        b0["len"] = len(getattr(E, name)(arr))
+                    except Exception as ex:
+                        b0["exc"] = type(ex).__name__
+                    t["batch0"].append(b0)
         # numbers that are not whole numbers
         from fractions import Fraction
         t["fracs"] = []
